@@ -81,21 +81,29 @@ func wAcsMode(c *MsgServerCtrl) (string, bool) {
 }
 
 // update digests one executed step.
-func (a *wAttach) update(w *wWorld, st *wStep) {
-	// a connection which has stopped reading is dropped by a topic once its queue is full (it cannot be told)
+// syncPaused: a connection which has stopped reading is dropped by a topic once its queue is full (it
+// cannot be told); the model learns it from the topic's own list of sessions.
+func (a *wAttach) syncPaused(w *wWorld) {
 	for sess, m := range a.att {
 		if sess < 0 || sess >= len(w.sess) || w.sess[sess] == nil || !w.sess[sess].pause.Load() {
 			continue
 		}
 		live := w.liveTopics()
 		for route := range m {
-			if lt := live[route]; lt != nil {
-				if _, listed := lt.Sessions[w.sess[sess].s.sid]; !listed {
-					delete(m, route)
-				}
+			lt := live[route]
+			if lt == nil {
+				delete(m, route) // (a topic with a session attached is never unloaded)
+				continue
+			}
+			if _, listed := lt.Sessions[w.sess[sess].s.sid]; !listed {
+				delete(m, route)
 			}
 		}
 	}
+}
+
+func (a *wAttach) update(w *wWorld, st *wStep) {
+	a.syncPaused(w)
 	steps := []*wStep{st}
 	if st.Op.K == "par" {
 		steps = st.Sub
